@@ -632,6 +632,11 @@ pub fn check(a: &CheckArgs) -> i32 {
     for (_, v) in &g.violations {
         *by_oracle.entry(format!("{} [{}]", v.oracle, v.sig)).or_insert(0) += 1;
     }
+    if std::env::var("VERIF_SIGS").is_ok() {
+        for (seed, v) in &g.violations {
+            println!("sigseed {seed} {} [{}]", v.oracle, v.sig);
+        }
+    }
     for (k, n) in &by_oracle {
         println!("violations by oracle: {k}: {n}");
     }
